@@ -1738,3 +1738,529 @@ Proof.
   pose proof (scont_unique L (w_rules w) (w_src w) HG _ _ _ _ _ Hs1 Hs2) as <-.
   exists l1. unfold content_at. simpl. now rewrite Hl1, Hl2'.
 Qed.
+
+(** * What one visit changes *)
+
+Definition rd_name (rd : rdigest) : name :=
+  match rd with RDFileSet n _ _ _ => n | RDBundle n => n end.
+
+Definition dname (d : digest) : option name :=
+  match d with DRuleD rd _ _ => Some (rd_name rd) | _ => None end.
+
+Lemma rdigest_of_name r : rd_name (rdigest_of r) = r_name r.
+Proof. unfold rdigest_of. destruct (r_kind r); reflexivity. Qed.
+
+Lemma sdig_dname L rules src f x d n :
+  find_node x L = Some n -> ntype n = TRule -> sdig L rules src f x = Some d -> dname d = Some x.
+Proof.
+  intros Hn Hty Hd. destruct f as [|f]; [discriminate|]. simpl in Hd. rewrite Hn, Hty in Hd.
+  destruct (find_rule x rules) as [r|] eqn:Hr; [|discriminate].
+  destruct (collect _ (ndeps n)); [|discriminate]. injection Hd as <-. simpl.
+  now rewrite rdigest_of_name, (find_rule_name _ _ _ Hr).
+Qed.
+
+Lemma entry_ok_shape out d b :
+  entry_ok out d b ->
+  exists x0, dname d = Some x0 /\ forall o s, In (o, s) b -> o = fileset_out x0.
+Proof.
+  intros (L0 & rules0 & src0 & x0 & n0 & r0 & f & _ & Hn & Hty & _ & Hd & Hk).
+  exists x0. split; [eapply sdig_dname; eauto|].
+  destruct (r_kind r0).
+  - destruct Hk as (l & s' & -> & _). intros o s [[= <- <-]|[]]. reflexivity.
+  - subst b. intros o s [].
+Qed.
+
+Definition hitb (st : bstate) (d : digest) : bool :=
+  match cache_get d (b_cache st) with
+  | Some b => same_built (b_out st) b
+  | None => false
+  end.
+
+Lemma hitb_valid st d : hitb st d = true <-> valid_cached (b_out st) (b_cache st) d.
+Proof.
+  unfold hitb, valid_cached. destruct (cache_get d (b_cache st)) as [b|].
+  - split; [eauto|]. intros [b' [[= <-] H]]. exact H.
+  - split; [discriminate|]. intros [b' [H _]]. discriminate.
+Qed.
+
+(** same validity when neither the entry nor the outputs it names changed *)
+Lemma valid_cached_same out cache out' cache' d x0 :
+  cache_inv out cache -> dname d = Some x0 ->
+  cache_get d cache' = cache_get d cache ->
+  lookup (fileset_out x0) out' = lookup (fileset_out x0) out ->
+  (valid_cached out' cache' d <-> valid_cached out cache d).
+Proof.
+  intros Hinv Hdn Hget Hl. unfold valid_cached. rewrite Hget.
+  split; intros [b [Hb Hs]]; exists b; (split; [assumption|]);
+    destruct (entry_ok_shape _ _ _ (Hinv d b Hb)) as (x1 & Hdn1 & Hshape);
+    rewrite Hdn in Hdn1; injection Hdn1 as <-;
+    unfold same_built in *; rewrite forallb_forall in *; intros [o s] Hin;
+    specialize (Hs (o, s) Hin); simpl in *; rewrite (Hshape o s Hin) in *.
+  - now rewrite <- Hl.
+  - now rewrite Hl.
+Qed.
+
+Section Effect.
+  Variables (L : list node) (rules : list rule) (src : list (name * stat)).
+
+  Let vis := visit L rules src.
+
+  (** the effect of a successful visit *)
+  Inductive effect (x : node) (st st' : bstate) : Prop :=
+  | eff_other d :           (* not a rule: only the memo grows *)
+      ntype x <> TRule -> st' = remember (nname x) d st -> effect x st st'
+  | eff_hit r dd :          (* a rule with a valid cache entry: nothing happens *)
+      ntype x = TRule -> find_rule (nname x) rules = Some r ->
+      dep_digests (b_memo st) (ndeps x) = Some dd ->
+      let d := DRuleD (rdigest_of r) (canon_deps dd) (node_outs rules x) in
+      hitb st d = true -> st' = remember (nname x) d st -> effect x st st'
+  | eff_exec r dd :         (* executed *)
+      ntype x = TRule -> find_rule (nname x) rules = Some r ->
+      dep_digests (b_memo st) (ndeps x) = Some dd ->
+      let d := DRuleD (rdigest_of r) (canon_deps dd) (node_outs rules x) in
+      hitb st d = false ->
+      b_memo st' = (nname x, d) :: b_memo st ->
+      b_exec st' = (b_exec st ++ [nname x])%list ->
+      hitb st' d = true ->
+      (forall d0, d0 <> d -> cache_get d0 (b_cache st') = cache_get d0 (b_cache st)) ->
+      (forall o, o <> fileset_out (nname x) -> lookup o (b_out st') = lookup o (b_out st)) ->
+      effect x st st'.
+
+  Lemma visit_effect x st st' : vis x st = inl st' -> effect x st st'.
+  Proof.
+    unfold vis, visit.
+    destruct (dep_digests (b_memo st) (ndeps x)) as [dd|] eqn:Hdd; [|discriminate].
+    destruct (ntype x) eqn:Hty.
+    - destruct (lookup (nname x) src); [|discriminate]. intros [= <-].
+      eapply eff_other; [congruence|reflexivity].
+    - destruct (find_rule (nname x) rules) as [r|] eqn:Hr; [|discriminate]. cbv zeta.
+      set (d := DRuleD (rdigest_of r) (canon_deps dd) (node_outs rules x)).
+      fold (hitb st d). destruct (hitb st d) eqn:Hhit.
+      + intros [= <-]. eapply eff_hit; eauto.
+      + unfold exec_rule, log. cbn [b_out b_cache b_clock b_memo b_exec].
+        pose proof (find_rule_name _ _ _ Hr) as Hrn.
+        destruct (r_kind r) as [files sels incs|ds] eqn:Hk.
+        * destruct (expand_files (map fst src) files sels) as [fl|]; [|discriminate].
+          destruct (fileset_content L rules src (b_out st) fl incs) as [l|]; [|discriminate].
+          rewrite Hrn.
+          assert (Hno : node_outs rules x = [fileset_out (nname x)])
+            by (unfold node_outs; now rewrite Hr, Hk).
+          rewrite Hno. unfold new_built. cbn [fold_right]. rewrite lookup_set_same.
+          intros [= <-]. eapply eff_exec with (r := r) (dd := dd); eauto; fold d;
+            unfold remember; cbn [b_out b_cache b_clock b_memo b_exec].
+          -- unfold hitb. cbn [b_out b_cache]. rewrite cache_get_put_same.
+             apply same_built_single. rewrite lookup_set_same. eauto.
+          -- intros d0 Hne. rewrite cache_get_put_other by congruence.
+             apply cache_get_remove_other. congruence.
+          -- intros o Hne. apply lookup_set_other. congruence.
+        * assert (Hno : node_outs rules x = []) by (unfold node_outs; now rewrite Hr, Hk).
+          rewrite Hno. cbn [new_built fold_right].
+          intros [= <-]. eapply eff_exec with (r := r) (dd := dd); eauto; fold d;
+            unfold remember; cbn [b_out b_cache b_clock b_memo b_exec].
+          -- unfold hitb. cbn [b_out b_cache]. rewrite cache_get_put_same. reflexivity.
+          -- intros d0 Hne. rewrite cache_get_put_other by congruence.
+             apply cache_get_remove_other. congruence.
+    - intros [= <-]. eapply eff_other; [congruence|reflexivity].
+  Qed.
+End Effect.
+
+(** * Which rules execute, and what holds afterwards *)
+
+Lemma bool_eq_iff (a b : bool) : (a = true <-> b = true) -> a = b.
+Proof. destruct a, b; intuition congruence. Qed.
+
+Section Track.
+  Variables (L : list node) (rules : list rule) (src : list (name * stat)).
+  Hypothesis HG : wfG L rules src.
+  Variable ts : list name.
+  Variable st0 : bstate.          (* the state the build started from *)
+
+  Let vis := visit L rules src.
+
+  Record trk (done rest : list node) (st : bstate) : Prop := mkTrk {
+    tk_exec : forall y d, In y done -> ntype y = TRule -> In (nname y, d) (b_memo st) ->
+                (In (nname y) (b_exec st) <-> hitb st0 d = false);
+    tk_only : forall nm, In nm (b_exec st) ->
+                exists y, In y done /\ nname y = nm /\ ntype y = TRule;
+    tk_rest : forall x d F, In x rest -> ntype x = TRule ->
+                sdig L rules src F (nname x) = Some d -> hitb st d = hitb st0 d;
+    tk_valid : forall y d, In y done -> ntype y = TRule -> In (nname y, d) (b_memo st) ->
+                 hitb st d = true;
+    tk_memo_done : forall y, In y done -> exists d, In (nname y, d) (b_memo st);
+    tk_memo_only : forall nm d, In (nm, d) (b_memo st) -> In nm (names done)
+  }.
+
+  Lemma hitb_same st st' d x0 :
+    cache_inv (b_out st) (b_cache st) -> dname d = Some x0 ->
+    cache_get d (b_cache st') = cache_get d (b_cache st) ->
+    lookup (fileset_out x0) (b_out st') = lookup (fileset_out x0) (b_out st) ->
+    hitb st' d = hitb st d.
+  Proof.
+    intros Hinv Hdn Hg Hl. apply bool_eq_iff. rewrite !hitb_valid.
+    eapply valid_cached_same; eauto.
+  Qed.
+
+  Lemma dname_neq d d' x x' : dname d = Some x -> dname d' = Some x' -> x <> x' -> d <> d'.
+  Proof. intros H1 H2 Hne ->. congruence. Qed.
+
+  Lemma run_track : forall rest done b st b' st',
+    post_ok L ts [] (done ++ rest) ->
+    binv L rules src st -> trk done rest st ->
+    LoadProofs.run bstate (bstate * failure) vis rest (b, st) = inl (b', st') ->
+    binv L rules src st' /\ trk (done ++ rest) [] st'.
+  Proof.
+    induction rest as [|x rest IH]; intros done b st b' st' Hok Hinv Htk Hrun.
+    { simpl in Hrun. injection Hrun as <- <-. rewrite app_nil_r. auto. }
+    simpl in Hrun. destruct (vis x st) as [st1|[st1 e]] eqn:Hv; [|discriminate].
+    assert (Hxin : In x (done ++ x :: rest)) by (apply in_app_iff; right; now left).
+    destruct (po_nodes _ _ _ _ Hok x Hxin) as (Hx & _).
+    pose proof (visit_inv L rules src HG x st Hinv Hx) as Hinv1. fold vis in Hinv1. rewrite Hv in Hinv1.
+    pose proof (po_nodup _ _ _ _ Hok) as Hnd. unfold names in Hnd. rewrite map_app in Hnd. simpl in Hnd.
+    apply NoDup_app_inv in Hnd. destruct Hnd as (Hnd1 & Hnd2 & Hdisj).
+    inversion Hnd2 as [|? ? Hxrest Hnd3]; subst.
+    assert (Hxdone : ~ In (nname x) (names done)).
+    { intros Hc. apply (Hdisj (nname x) Hc). now left. }
+    destruct Htk as [Ta To Tr Tv Tm Tmo].
+    destruct Hinv as [Hm Ho Hc Hf].
+    assert (Hdig : forall y d, In y (done ++ x :: rest) -> ntype y = TRule ->
+                     (exists F, sdig L rules src F (nname y) = Some d) -> dname d = Some (nname y)).
+    { intros y d Hy Hty [F HF]. destruct (po_nodes _ _ _ _ Hok y Hy) as (Hfy & _).
+      eapply sdig_dname; eauto. }
+    assert (Hmemo_dig : forall y d, In (nname y, d) (b_memo st) ->
+                          exists F, sdig L rules src F (nname y) = Some d).
+    { intros y d Hin. destruct Hm as [F HF]. exists F. now apply HF. }
+    (* the state after visiting x satisfies the tracking invariant for done ++ [x] *)
+    assert (Htk1 : trk (done ++ [x]) rest st1).
+    { pose proof (visit_effect L rules src x st st1 Hv) as Heff.
+      destruct Heff as [d Hnr ->|r dd Hty Hr Hdd d Hhit ->|r dd Hty Hr Hdd d Hhit Hmemo Hexec Hhit1 Hcache Hout].
+      - (* not a rule *)
+        constructor; simpl.
+        + intros y d' Hy Hty [[= E1 E2]|Hin].
+          * apply in_app_iff in Hy. destruct Hy as [Hy|[<-|[]]]; [|congruence].
+            exfalso. apply Hxdone. rewrite E1. now apply in_map.
+          * apply in_app_iff in Hy. destruct Hy as [Hy|[<-|[]]]; [eauto|congruence].
+        + intros nm Hnm. destruct (To nm Hnm) as (y' & Hy' & E' & Ht').
+          exists y'. split; [apply in_app_iff; now left|auto].
+        + intros z dz F Hz Htz Hsz. apply (Tr z dz F); [now right|assumption|assumption].
+        + intros y d' Hy Hty [[= E1 E2]|Hin].
+          * apply in_app_iff in Hy. destruct Hy as [Hy|[<-|[]]]; [|congruence].
+            exfalso. apply Hxdone. rewrite E1. now apply in_map.
+          * apply in_app_iff in Hy. destruct Hy as [Hy|[<-|[]]]; [|congruence].
+            change (hitb (remember (nname x) d st) d') with (hitb st d'). eauto.
+        + intros y Hy. apply in_app_iff in Hy. destruct Hy as [Hy|[<-|[]]].
+          * destruct (Tm y Hy) as [dy Hdy]. exists dy. now right.
+          * exists d. now left.
+        + intros nm d' [[= <- <-]|Hin]; unfold names; rewrite map_app; apply in_app_iff.
+          * right. now left.
+          * left. eapply Tmo; eauto.
+      - (* a hit: nothing changes *)
+        assert (Hd : exists F, sdig L rules src F (nname x) = Some d).
+        { destruct Hm as [F HF]. exists (S F). exact (visit_digest L rules src x r _ dd F Hx Hty Hr HF Hdd). }
+        assert (Hh0 : hitb st0 d = true).
+        { destruct Hd as [F HF]. rewrite <- (Tr x d F (or_introl eq_refl) Hty HF). exact Hhit. }
+        constructor; simpl.
+        + intros y d' Hy Hty' [[= E1 E2]|Hin].
+          * subst d'. split; [|congruence]. intros Hex. exfalso. apply Hxdone. rewrite E1.
+            destruct (To _ Hex) as (y' & Hy' & E' & _). rewrite <- E'. now apply in_map.
+          * apply in_app_iff in Hy. destruct Hy as [Hy|[<-|[]]]; [eauto|].
+            exfalso. apply Hxdone. eapply Tmo; eauto.
+        + intros nm Hnm. destruct (To nm Hnm) as (y' & Hy' & E' & Ht').
+          exists y'. split; [apply in_app_iff; now left|auto].
+        + intros z dz F Hz Htz Hsz. apply (Tr z dz F); [now right|assumption|assumption].
+        + intros y d' Hy Hty' [[= E1 E2]|Hin].
+          * subst d'. exact Hhit.
+          * apply in_app_iff in Hy. destruct Hy as [Hy|[<-|[]]].
+            -- change (hitb (remember (nname x) d st) d') with (hitb st d'). eauto.
+            -- exfalso. apply Hxdone. eapply Tmo; eauto.
+        + intros y Hy. apply in_app_iff in Hy. destruct Hy as [Hy|[<-|[]]].
+          * destruct (Tm y Hy) as [dy Hdy]. exists dy. now right.
+          * exists d. now left.
+        + intros nm d' [[= <- <-]|Hin]; unfold names; rewrite map_app; apply in_app_iff.
+          * right. now left.
+          * left. eapply Tmo; eauto.
+      - (* executed *)
+        assert (Hd : exists F, sdig L rules src F (nname x) = Some d).
+        { destruct Hm as [F HF]. exists (S F). exact (visit_digest L rules src x r _ dd F Hx Hty Hr HF Hdd). }
+        assert (Hh0 : hitb st0 d = false).
+        { destruct Hd as [F HF]. rewrite <- (Tr x d F (or_introl eq_refl) Hty HF). exact Hhit. }
+        assert (Hdnx : dname d = Some (nname x)) by (apply Hdig; auto).
+        (* validity of every other rule digest is untouched *)
+        assert (Hsame : forall y dy, In y (done ++ x :: rest) -> nname y <> nname x -> ntype y = TRule ->
+                          (exists F, sdig L rules src F (nname y) = Some dy) ->
+                          hitb st1 dy = hitb st dy).
+        { intros y dy Hy Hne Hty' Hdy. pose proof (Hdig y dy Hy Hty' Hdy) as Hdny.
+          apply hitb_same with (x0 := nname y); auto.
+          - apply Hcache. eapply dname_neq; eauto.
+          - apply Hout. intros E. apply fileset_out_inj in E. congruence. }
+        constructor.
+        + intros y d' Hy Hty' Hin. rewrite Hmemo in Hin. rewrite Hexec, in_app_iff.
+          destruct Hin as [[= E1 E2]|Hin].
+          * subst d'. split; [auto|]. intros _. right. now left.
+          * apply in_app_iff in Hy. destruct Hy as [Hy|[<-|[]]].
+            -- rewrite <- (Ta y d' Hy Hty' Hin). split; [|tauto].
+               intros [H|[H|[]]]; [assumption|]. exfalso. apply Hxdone. rewrite H. now apply in_map.
+            -- exfalso. apply Hxdone. eapply Tmo; eauto.
+        + intros nm Hnm. rewrite Hexec in Hnm.
+          apply in_app_iff in Hnm. destruct Hnm as [Hnm|[<-|[]]].
+          * destruct (To nm Hnm) as (y' & Hy' & E' & Ht'). exists y'. split; [apply in_app_iff; now left|auto].
+          * exists x. split; [apply in_app_iff; right; now left|auto].
+        + intros z dz F Hz Htz Hsz. rewrite <- (Tr z dz F (or_intror Hz) Htz Hsz).
+          apply (Hsame z dz); eauto.
+          * apply in_app_iff. right. now right.
+          * intros E. apply Hxrest. rewrite <- E. now apply in_map.
+        + intros y d' Hy Hty' Hin. rewrite Hmemo in Hin. destruct Hin as [[= E1 E2]|Hin].
+          * subst d'. exact Hhit1.
+          * apply in_app_iff in Hy. destruct Hy as [Hy|[<-|[]]].
+            -- rewrite (Hsame y d'); eauto.
+               ++ apply in_app_iff. now left.
+               ++ intros E. apply Hxdone. rewrite <- E. now apply in_map.
+            -- exfalso. apply Hxdone. eapply Tmo; eauto.
+        + intros y Hy. rewrite Hmemo. apply in_app_iff in Hy. destruct Hy as [Hy|[<-|[]]].
+          * destruct (Tm y Hy) as [dy Hdy]. exists dy. now right.
+          * exists d. now left.
+        + intros nm d' Hin. rewrite Hmemo in Hin. unfold names. rewrite map_app. apply in_app_iff.
+          destruct Hin as [[= <- <-]|Hin]; [right; now left|left; eapply Tmo; eauto]. }
+    destruct (IH (done ++ [x])%list (nname x :: b) st1 b' st') as [I1 I2]; auto.
+    { now rewrite <- app_assoc. }
+    split; [assumption|]. now rewrite <- app_assoc in I2.
+  Qed.
+End Track.
+
+(** * A rule executes exactly when its action digest has no valid cache entry *)
+
+Lemma trk_init L rules src st0 new :
+  b_memo st0 = [] -> b_exec st0 = [] -> trk L rules src st0 [] new st0.
+Proof.
+  intros Hm He. constructor; rewrite ?Hm, ?He; simpl; try tauto.
+Qed.
+
+(** common set-up of a successful build *)
+Lemma build_ok_run ts w w1 e1 L :
+  winv w -> build_in_scope ts w -> load_world w ts = LOk L -> build ts w = (w1, e1, BOk) ->
+  exists new b1 st1,
+    wfG L (w_rules w) (w_src w) /\
+    post_targets L ts [] = Some new /\ post_ok L ts [] new /\
+    LoadProofs.run bstate (bstate * failure) (visit L (w_rules w) (w_src w)) new ([], st0_of w)
+      = inl (b1, st1) /\
+    w1 = with_state w st1 /\ e1 = b_exec st1 /\
+    binv L (w_rules w) (w_src w) st1 /\
+    trk L (w_rules w) (w_src w) (st0_of w) new [] st1.
+Proof.
+  intros Hw Hs Hl Hb. unfold build_in_scope in Hs. rewrite Hl in Hs.
+  pose proof (load_world_wfG w ts L Hl Hs) as HG.
+  destruct (build_unfold ts w L Hl (wg_wf _ _ _ HG)) as [new [Hn Hbu]].
+  destruct (post_targets_spec L (wg_wf _ _ _ HG) ts [] new Hn) as [Hok _].
+  rewrite Hb in Hbu.
+  destruct (LoadProofs.run bstate (bstate * failure) (visit L (w_rules w) (w_src w)) new ([], st0_of w))
+    as [[b1 st1]|[st1 e]] eqn:Hrun; [|discriminate].
+  injection Hbu as -> ->.
+  pose proof (run_track L (w_rules w) (w_src w) HG ts (st0_of w) new [] [] (st0_of w) b1 st1
+                Hok (binv_st0 _ _ _ w Hw) (trk_init _ _ _ (st0_of w) new eq_refl eq_refl) Hrun)
+    as [Hinv Htk].
+  exists new, b1, st1.
+  split; [exact HG|]. split; [exact Hn|]. split; [exact Hok|]. split; [exact Hrun|].
+  split; [reflexivity|]. split; [reflexivity|]. split; assumption.
+Qed.
+
+Theorem exec_iff ts w w1 e1 L :
+  winv w -> build_in_scope ts w -> load_world w ts = LOk L -> build ts w = (w1, e1, BOk) ->
+  forall r,
+    In r e1 <->
+    reach_rule L ts r /\
+    exists F d, sdig L (w_rules w) (w_src w) F r = Some d /\
+                ~ valid_cached (w_out w) (w_cache w) d.
+Proof.
+  intros Hw Hs Hl Hb r.
+  destruct (build_ok_run ts w w1 e1 L Hw Hs Hl Hb)
+    as (new & b1 & st1 & HG & Hn & Hok & Hrun & -> & -> & Hinv & Htk).
+  destruct (load_world_inv w ts L Hl) as (stl & Hrr & Hre & Htopo & Hts).
+  assert (Hsrcnd : forall n, In n L -> ntype n = TSrc -> ndeps n = []).
+  { intros n Hn' Hty. eapply loaded_src_nodeps; eauto. eapply read_roots_nonsrc; eauto. }
+  rewrite (reach_rule_visited L ts new r (wg_wf _ _ _ HG) Hts Hsrcnd Hn).
+  destruct Htk as [Ta To _ _ Tm _]. destruct Hinv as [[F HF] _ _ _].
+  assert (Hvalid0 : forall d, hitb (st0_of w) d = false <-> ~ valid_cached (w_out w) (w_cache w) d).
+  { intros d. rewrite <- (hitb_valid (st0_of w) d). destruct (hitb (st0_of w) d); intuition congruence. }
+  split.
+  - intros Hr. destruct (To r Hr) as (y & Hy & <- & Hty).
+    split; [exists y; auto|].
+    destruct (Tm y Hy) as [d Hd]. exists F, d. split; [now apply HF|].
+    apply Hvalid0. now apply (Ta y d Hy Hty Hd).
+  - intros [(x & Hx & <- & Hty) (F' & d & Hd & Hnv)].
+    destruct (Tm x Hx) as [d' Hd']. pose proof (HF _ _ Hd') as Hd2.
+    pose proof (sdig_unique _ _ _ _ _ _ _ _ Hd Hd2) as <-.
+    apply (Ta x d Hx Hty Hd'). now apply Hvalid0.
+Qed.
+
+(** * A rebuild with nothing changed executes nothing *)
+
+Section AllHits.
+  Variables (L : list node) (rules : list rule) (src : list (name * stat)).
+  Hypothesis HG : wfG L rules src.
+  Variable ts : list name.
+
+  Let vis := visit L rules src.
+
+  Lemma run_all_hits : forall rest done b st,
+    post_ok L ts [] (done ++ rest) ->
+    binv L rules src st ->
+    (forall y, In y done -> exists d, In (nname y, d) (b_memo st)) ->
+    spec_ok L rules src rest ->
+    (forall x F d, In x rest -> ntype x = TRule -> sdig L rules src F (nname x) = Some d ->
+                   hitb st d = true) ->
+    exists b' st', LoadProofs.run bstate (bstate * failure) vis rest (b, st) = inl (b', st') /\
+      b_out st' = b_out st /\ b_cache st' = b_cache st /\ b_clock st' = b_clock st /\
+      b_exec st' = b_exec st.
+  Proof.
+    induction rest as [|x rest IH]; intros done b st Hok Hinv Hdone Hspec Hhits.
+    - exists b, st. simpl. auto.
+    - simpl.
+      destruct (po_nodes _ _ _ _ Hok x) as (Hx & _); [apply in_app_iff; right; now left|].
+      assert (Hdeps : forall k, In k (ndeps x) -> exists d, In (k, d) (b_memo st)).
+      { intros k Hk. destruct (po_deps _ _ _ _ Hok done x rest eq_refl k Hk) as [[]|Hkd].
+        apply in_map_iff in Hkd. destruct Hkd as [y [<- Hy]]. auto. }
+      destruct (visit_succeeds L rules src HG x st Hinv Hx Hdeps) as [st1 Hv].
+      { intros y r fs ss is' [<-|[]]. apply Hspec. now left. }
+      fold vis in Hv. rewrite Hv.
+      pose proof (visit_inv L rules src HG x st Hinv Hx) as Hinv1. fold vis in Hinv1. rewrite Hv in Hinv1.
+      destruct (visit_memo L rules src x st st1 Hv) as [dx Hmemo].
+      (* the visit changed nothing but the memo *)
+      assert (Hsame : b_out st1 = b_out st /\ b_cache st1 = b_cache st /\
+                      b_clock st1 = b_clock st /\ b_exec st1 = b_exec st).
+      { destruct (visit_effect L rules src x st st1 Hv)
+          as [d Hnr ->|r dd Hty Hr Hdd d Hhit ->|r dd Hty Hr Hdd d Hhit _ _ _ _ _]; simpl; auto.
+        exfalso. destruct Hinv as [[F HF] _ _ _].
+        pose proof (visit_digest L rules src x r _ dd F Hx Hty Hr HF Hdd) as Hd.
+        rewrite (Hhits x (S F) d (or_introl eq_refl) Hty Hd) in Hhit. discriminate. }
+      destruct Hsame as (E1 & E2 & E3 & E4).
+      destruct (IH (done ++ [x])%list (nname x :: b) st1) as (b' & st' & Hrun & A & B & C & D).
+      + now rewrite <- app_assoc.
+      + assumption.
+      + intros y Hy. rewrite Hmemo. apply in_app_iff in Hy. destruct Hy as [Hy|[<-|[]]].
+        * destruct (Hdone y Hy) as [dy Hdy]. exists dy. now right.
+        * exists dx. now left.
+      + intros y r fs ss is' Hy. apply Hspec. now right.
+      + intros z F d Hz Htz Hsz. unfold hitb. rewrite E1, E2.
+        exact (Hhits z F d (or_intror Hz) Htz Hsz).
+      + exists b', st'. split; [exact Hrun|]. repeat split; congruence.
+  Qed.
+End AllHits.
+
+Theorem noop_rebuild ts w w1 e1 :
+  winv w -> build_in_scope ts w -> build ts w = (w1, e1, BOk) ->
+  build ts w1 = (w1, [], BOk).
+Proof.
+  intros Hw Hs Hb.
+  destruct (load_world w ts) as [|es|L] eqn:Hl;
+    try (unfold build in Hb; rewrite Hl in Hb; discriminate).
+  destruct (build_ok_run ts w w1 e1 L Hw Hs Hl Hb)
+    as (new & b1 & st1 & HG & Hn & Hok & Hrun & -> & -> & Hinv & Htk).
+  set (w1 := with_state w st1).
+  assert (Hl1 : load_world w1 ts = LOk L) by exact Hl.
+  destruct (build_unfold ts w1 L Hl1 (wg_wf _ _ _ HG)) as [new1 [Hn1 Hbu]].
+  rewrite Hn in Hn1. injection Hn1 as <-.
+  change (w_rules w1) with (w_rules w) in Hbu. change (w_src w1) with (w_src w) in Hbu.
+  (* every visited file set has a computable content; every visited rule is validly cached *)
+  destruct (run_memo _ _ _ _ _ _ _ _ Hrun) as [_ Hmemo1].
+  assert (Hnodes : forall x, In x new -> find_node (nname x) L = Some x).
+  { intros x Hx. destruct (po_nodes _ _ _ _ Hok x Hx) as [H _]. exact H. }
+  assert (Hspec : spec_ok L (w_rules w) (w_src w) new).
+  { intros x r fs ss is' Hx Hty Hr Hk. destruct (Hmemo1 x Hx) as [d Hd].
+    destruct Hinv as [_ [F HF] _ _].
+    destruct (HF (nname x) d x r fs ss is' Hd (Hnodes x Hx) Hty Hr Hk) as (l & s & Hsc & _). eauto. }
+  assert (Hw1 : winv w1).
+  { destruct Hinv as [_ _ Hc Hf]. split; assumption. }
+  destruct (run_all_hits L (w_rules w) (w_src w) HG ts new [] [] (st0_of w1))
+    as (b2 & st2 & Hrun2 & A & B & C & D); auto.
+  - exact (binv_st0 _ _ _ w1 Hw1).
+  - intros y [].
+  - intros x F d Hx Hty Hd. destruct (Hmemo1 x Hx) as [d' Hd'].
+    destruct Hinv as [[F1 HF1] _ _ _]. pose proof (HF1 _ _ Hd') as Hd2.
+    pose proof (sdig_unique _ _ _ _ _ _ _ _ Hd Hd2) as ->.
+    exact (tk_valid _ _ _ _ _ _ _ Htk x d' Hx Hty Hd').
+  - rewrite Hrun2 in Hbu. rewrite Hbu. simpl in A, B, C, D.
+    unfold with_state. simpl. rewrite A, B, C, D. reflexivity.
+Qed.
+
+(** * A rule whose execution failed has no cache entry *)
+
+Lemma run_fail_split {St Er} (vis : node -> St -> St + Er) new : forall b st err,
+  LoadProofs.run St Er vis new (b, st) = inr err ->
+  exists done x rest b1 st1,
+    new = (done ++ x :: rest)%list /\
+    LoadProofs.run St Er vis done (b, st) = inl (b1, st1) /\ vis x st1 = inr err.
+Proof.
+  induction new as [|y new IH]; intros b st err H; simpl in H; [discriminate|].
+  destruct (vis y st) as [st1|e1] eqn:Hv.
+  - destruct (IH _ _ _ H) as (done & x & rest & b1 & st2 & -> & Hr & Hx).
+    exists (y :: done), x, rest, b1, st2. simpl. rewrite Hv. auto.
+  - injection H as <-. exists [], y, new, b, st. simpl. auto.
+Qed.
+
+Theorem failed_not_cached ts w w' ex e L :
+  winv w -> build_in_scope ts w -> load_world w ts = LOk L ->
+  build ts w = (w', ex, BFail e) ->
+  exists ex0 x F d,
+    ex = (ex0 ++ [x])%list /\ reach_rule L ts x /\
+    sdig L (w_rules w) (w_src w) F x = Some d /\
+    cache_get d (w_cache w') = None.
+Proof.
+  intros Hw Hs Hl Hb. unfold build_in_scope in Hs. rewrite Hl in Hs.
+  pose proof (load_world_wfG w ts L Hl Hs) as HG.
+  pose proof (wg_wf _ _ _ HG) as Hwf.
+  destruct (load_world_inv w ts L Hl) as (stl & Hrr & Hre & Htopo & Hts).
+  assert (Hsrcnd : forall n, In n L -> ntype n = TSrc -> ndeps n = []).
+  { intros n Hn' Hty. eapply loaded_src_nodeps; eauto. eapply read_roots_nonsrc; eauto. }
+  destruct (build_unfold ts w L Hl Hwf) as [new [Hn Hbu]].
+  destruct (post_targets_spec L Hwf ts [] new Hn) as [Hok _].
+  rewrite Hb in Hbu.
+  destruct (LoadProofs.run bstate (bstate * failure) (visit L (w_rules w) (w_src w)) new ([], st0_of w))
+    as [[b1 st1]|[st1 e1]] eqn:Hrun; [discriminate|].
+  injection Hbu as -> -> ->.
+  destruct (run_fail_split _ _ _ _ _ Hrun) as (done & x & rest & b1 & st2 & -> & Hrd & Hvx).
+  (* the state before the failing visit *)
+  assert (Hnodes : forall y, In y (done ++ x :: rest) -> find_node (nname y) L = Some y).
+  { intros y Hy. destruct (po_nodes _ _ _ _ Hok y Hy) as [H _]. exact H. }
+  pose proof (run_inv L (w_rules w) (w_src w) HG done [] (st0_of w) (binv_st0 _ _ _ w Hw)) as Hinv2.
+  rewrite Hrd in Hinv2.
+  assert (Hinv : binv L (w_rules w) (w_src w) st2).
+  { apply Hinv2. intros y Hy. apply Hnodes. apply in_app_iff. now left. }
+  destruct (run_memo _ _ _ _ _ _ _ _ Hrd) as [_ Hmemo].
+  assert (Hx : find_node (nname x) L = Some x) by (apply Hnodes; apply in_app_iff; right; now left).
+  assert (Hxin : In x L) by (apply find_node_Some in Hx; tauto).
+  assert (Hdeps : forall k, In k (ndeps x) -> exists d, lookup k (b_memo st2) = Some d).
+  { intros k Hk. destruct (po_deps _ _ _ _ Hok done x rest eq_refl k Hk) as [[]|Hkd].
+    apply in_map_iff in Hkd. destruct Hkd as [y [<- Hy]].
+    destruct (Hmemo y Hy) as [d Hd]. apply In_fst_lookup. apply in_map_iff. exists (nname y, d). auto. }
+  (* analysis of the failing visit *)
+  unfold visit in Hvx.
+  destruct (collect_total (fun d => lookup d (b_memo st2)) (ndeps x) Hdeps) as [dd Hdd].
+  rewrite dep_digests_collect, Hdd in Hvx.
+  destruct (ntype x) eqn:Hty.
+  - destruct (wg_src _ _ _ HG x Hxin Hty) as [s Hsrc]. rewrite Hsrc in Hvx. discriminate.
+  - destruct (wg_rule _ _ _ HG x Hxin Hty) as (r & Hr & Hdeps'). rewrite Hr in Hvx. cbv zeta in Hvx.
+    set (d := DRuleD (rdigest_of r) (canon_deps dd) (node_outs (w_rules w) x)) in *.
+    fold (hitb st2 d) in Hvx. destruct (hitb st2 d); [discriminate|].
+    assert (Hd : exists F, sdig L (w_rules w) (w_src w) F (nname x) = Some d).
+    { destruct Hinv as [[F HF] _ _ _]. exists (S F).
+      exact (visit_digest L (w_rules w) (w_src w) x r _ dd F Hx Hty Hr HF Hdd). }
+    destruct Hd as [F Hd].
+    assert (Hreach : reach_rule L ts (nname x)).
+    { apply (reach_rule_visited L ts _ (nname x) Hwf Hts Hsrcnd Hn).
+      exists x. repeat split; auto. apply in_app_iff. right. now left. }
+    unfold exec_rule, log in Hvx. cbn [b_out b_cache b_clock b_memo b_exec] in Hvx.
+    pose proof (find_rule_name _ _ _ Hr) as Hrn.
+    destruct (r_kind r) as [files sels incs|ds] eqn:Hk.
+    + destruct Hdeps' as (fl & Hex & _). rewrite Hex in Hvx.
+      destruct (fileset_content L (w_rules w) (w_src w) (b_out st2) fl incs) as [l|e2] eqn:Hc.
+      * rewrite Hrn in Hvx.
+        assert (Hno : node_outs (w_rules w) x = [fileset_out (nname x)])
+          by (unfold node_outs; now rewrite Hr, Hk).
+        rewrite Hno in Hvx. unfold new_built in Hvx. cbn [fold_right] in Hvx.
+        rewrite lookup_set_same in Hvx. discriminate.
+      * injection Hvx as <- <-. simpl.
+        exists (b_exec st2), (nname x), F, d. repeat split; auto.
+        apply cache_get_remove_same.
+    + assert (Hno : node_outs (w_rules w) x = []) by (unfold node_outs; now rewrite Hr, Hk).
+      rewrite Hno in Hvx. cbn [new_built fold_right] in Hvx. discriminate.
+  - discriminate.
+Qed.
